@@ -146,14 +146,13 @@ Observe ==
 
 Mutate(m) ==
   /\ phase = "observed"
-  /\ m \in Mutations(g)
   /\ g' = Apply(g, m) /\ mut' = m /\ phase' = "mutated"
   /\ UNCHANGED kind
   /\ Emit([op |-> "Mutate", mut |-> m.name, i |-> m.i, j |-> m.j, field |-> m.f, resign |-> m.resign, ret |-> "ok"])
 
 Next == \/ \E n \in Sizes, k \in Kinds : Create(n, k)
         \/ Observe
-        \/ \E m \in Mutations(g) : Mutate(m)
+        \/ (phase = "observed" /\ \E m \in Mutations(g) : Mutate(m))
 
 Spec == Init /\ [][Next]_vars
 
